@@ -11,47 +11,62 @@ Sc == Traces[tid].scenario
 Unanswered(i) == Sc.script[i] \in {"none", "late", "gone"}
 AllUnanswered == \A i \in 1..Sc.retries : Unanswered(i)
 FirstAnswered == IF AllUnanswered THEN 0 ELSE CHOOSE i \in 1..Sc.retries : ~Unanswered(i) /\ \A j \in 1..(i - 1) : Unanswered(j)
-St0 == [opened |-> {}, closed |-> {}, sent |-> 0, lastSend |-> 0, firstData |-> <<>>, firstAt |-> 0, got |-> FALSE, ret |-> [none |-> TRUE], retAt |-> 0]
-
+St0 == [opened |-> {}, closed |-> {}, sent |-> 0, discarded |-> 0, lastSend |-> 0, firstData |-> <<>>, firstAt |-> 0, got |-> FALSE, errAt |-> 0, erred |-> FALSE,
+        ret |-> [none |-> TRUE], retAt |-> 0]
+(* The clauses are written against what crossed the seam - transmissions, and what reached an OPEN socket of the call (deliver / error /
+   lost are only logged then) - not against how many sockets the sender uses: a sender that opens one socket per attempt and one that
+   retransmits over a single socket are judged alike.  The script only drives the environment (n-th transmission -> n-th outcome). *)
 On(s, e) ==
   CASE e.e = "open" -> [st |-> [s EXCEPT !.opened = @ \cup {e.k}], cl |-> <<>>]
     [] e.e = "sendto" ->
          [st |-> [s EXCEPT !.sent = @ + 1, !.lastSend = e.t],
-          cl |-> << <<"too_many_transmissions", s.sent + 1 <= Sc.retries>>,
+          cl |-> << <<"too_many_transmissions", s.sent + s.discarded + 1 <= Sc.retries>>,
                     <<"payload_changed", e.payload = Sc.payload>>,
-                    <<"waited_not_timeout", s.sent = 0 \/ e.t - s.lastSend = Sc.timeout>>,
-                    <<"transmission_after_return", Has(s.ret, "none")>> >>]
-    [] e.e = "sendto_on_closed" -> [st |-> s, cl |-> << <<"retransmission_never_reaches_wire", FALSE>> >>]
+                    <<"waited_not_timeout", s.sent + s.discarded = 0 \/ e.t - s.lastSend = Sc.timeout>>,
+                    <<"transmission_after_return", Has(s.ret, "none")>>,
+                    <<"transmission_after_answer", ~s.got /\ ~s.erred>> >>]
+    [] e.e = "sendto_on_closed" ->
+         \* a datagram handed to a transport the sender itself has closed / aborted never reaches the wire; one handed to a socket that
+         \* went away on its own is an attempt all the same
+         [st |-> [s EXCEPT !.discarded = @ + 1, !.lastSend = e.t], cl |-> << <<"retransmission_never_reaches_wire", Has(e, "by") /\ e.by = "env">> >>]
     [] e.e = "deliver" -> [st |-> IF s.got THEN s ELSE [s EXCEPT !.got = TRUE, !.firstData = e.data, !.firstAt = e.t], cl |-> <<>>]
-    [] e.e \in {"dropped", "error"} -> [st |-> s, cl |-> <<>>]
-    [] e.e \in {"close", "abort", "lost"} -> [st |-> [s EXCEPT !.closed = @ \cup {e.k}], cl |-> <<>>]
+    [] e.e = "dropped" -> [st |-> s, cl |-> <<>>]
+    [] e.e = "error" -> [st |-> IF s.erred THEN s ELSE [s EXCEPT !.erred = TRUE, !.errAt = e.t], cl |-> <<>>]
+    [] e.e = "lost" -> [st |-> [(IF s.erred THEN s ELSE [s EXCEPT !.erred = TRUE, !.errAt = e.t]) EXCEPT !.closed = @ \cup {e.k}], cl |-> <<>>]
+    [] e.e \in {"close", "abort", "gone"} -> [st |-> [s EXCEPT !.closed = @ \cup {e.k}], cl |-> <<>>]
     [] e.e = "ret" ->
+         LET dataFirst == s.got /\ (~s.erred \/ s.firstAt <= s.errAt)
+             errFirst == s.erred /\ ~dataFirst IN
          [st |-> [s EXCEPT !.ret = e, !.retAt = e.t],
-          cl |-> IF AllUnanswered
-                 THEN << <<"timeout_not_raised", e.kind = "exc" /\ e.cls = "Timeout">>,
-                         <<"timeout_at_wrong_time", e.t = Sc.retries * Sc.timeout>>,
-                         <<"fewer_transmissions_than_retries", s.sent = Sc.retries>> >>
-                 ELSE IF Sc.script[FirstAnswered] \in {"reply", "two"}
-                 THEN << <<"returned_not_first_reply", e.kind = "result" /\ s.got>>,
+          cl |-> IF dataFirst
+                 THEN << <<"returned_not_first_reply", e.kind = "result">>,
                          <<"reply_modified", e.data = s.firstData>>,
-                         <<"returned_late", e.t = s.firstAt>>,
-                         <<"transmissions_before_reply", s.sent = FirstAnswered>> >>
-                 ELSE << <<"os_error_swallowed", e.kind = "exc" /\ e.cls # "Timeout">>,
-                         <<"transmissions_before_error", s.sent = FirstAnswered>> >>]
+                         <<"returned_late", e.t = s.firstAt>> >>
+                 ELSE IF errFirst
+                 THEN << <<"os_error_swallowed", e.kind = "exc" /\ e.cls # "Timeout">>,
+                         <<"returned_late", e.t = s.errAt>> >>
+                 ELSE << <<"timeout_not_raised", e.kind = "exc" /\ e.cls = "Timeout">>,
+                         <<"timeout_at_wrong_time", e.t = Sc.retries * Sc.timeout>>,
+                         <<"fewer_transmissions_than_retries", s.sent + s.discarded = Sc.retries>> >>]
     [] e.e = "settled" ->
          [st |-> s, cl |-> << <<"socket_left_open", s.opened \subseteq s.closed>>,
                               <<"call_never_returned", ~Has(s.ret, "none")>> >>]
     [] e.e = "loopback" ->
-         LET n == Len(e.seen) IN
+         LET n == Len(e.seen)
+             \* replies that are late for their own attempt but arrive while a later attempt is still waited for: a sender that keeps one
+             \* socket open receives them (they are the first reply then), a sender with one socket per attempt cannot - both are accepted
+             UsableLate == { i \in 1..(Sc.retries - 1) : Sc.script[i] = "late" }
+             LateData == { <<82, 69, 80, 76, 89, i, 1>> : i \in UsableLate } IN
          [st |-> s,
           cl |-> << <<"socket_left_open", e.leaked_fds <= 0>>,
                     <<"too_many_transmissions", n <= Sc.retries>>,
                     <<"payload_changed", \A i \in 1..n : e.seen[i] = e.seen[1]>>,
-                    <<"timeout_not_raised", ~AllUnanswered \/ (e.ret.kind = "exc" /\ e.ret.cls = "Timeout")>>,
-                    <<"fewer_transmissions_than_retries", ~AllUnanswered \/ n = Sc.retries>>,
-                    <<"timeout_too_early", ~AllUnanswered \/ e.elapsed_ms >= Sc.retries * Sc.timeout - 5>>,
+                    <<"timeout_not_raised", ~AllUnanswered \/ (e.ret.kind = "exc" /\ e.ret.cls = "Timeout") \/ (e.ret.kind = "result" /\ e.ret.data \in LateData)>>,
+                    <<"fewer_transmissions_than_retries", ~AllUnanswered \/ e.ret.kind = "result" \/ n = Sc.retries>>,
+                    <<"timeout_too_early", ~AllUnanswered \/ e.ret.kind = "result" \/ e.elapsed_ms >= Sc.retries * Sc.timeout - 5>>,
                     <<"returned_not_first_reply", AllUnanswered \/ Sc.script[FirstAnswered] \notin {"reply", "two"}
-                                                   \/ (e.ret.kind = "result" /\ e.ret.data = <<82, 69, 80, 76, 89, FirstAnswered, 1>>)>>,
+                                                   \/ (e.ret.kind = "result" /\ (e.ret.data = <<82, 69, 80, 76, 89, FirstAnswered, 1>>
+                                                                                 \/ e.ret.data \in { d \in LateData : d[6] < FirstAnswered }))>>,
                     <<"os_error_swallowed", AllUnanswered \/ Sc.script[FirstAnswered] # "icmp" \/ (e.ret.kind = "exc" /\ e.ret.cls # "Timeout")>> >>]
     [] OTHER -> [st |-> s, cl |-> << <<"MACHINERY_unknown_event", FALSE>> >>]
 
